@@ -54,8 +54,49 @@ class Obligation:
         self.detail = detail
         self.name = None
 
-    def smt2(self, logic=None):
+    @staticmethod
+    def _heap_kinds(term, cache={}):
+        """Kinds of heap components (nodes, hase, nv:weight, ...) mentioned by a term."""
+        kinds = set()
+        seen = set()
+        stack = [term]
+        while stack:
+            t = stack.pop()
+            i = t.get_id()
+            if i in seen:
+                continue
+            seen.add(i)
+            if z3.is_quantifier(t):
+                stack.append(t.body())
+                continue
+            if z3.is_const(t) and t.decl().kind() == z3.Z3_OP_UNINTERPRETED:
+                name = t.decl().name()
+                if name.startswith('H!') and '.' in name:
+                    kinds.add(name.split('.', 1)[1])
+            elif z3.is_app(t):
+                stack.extend(t.children())
+        return kinds
+
+    def relevant_hyps(self):
+        """Sound weakening: drop hypotheses that only talk about heap components the goal never mentions
+        (fewer hypotheses can only make `unsat` harder, never wrong)."""
+        base = {'nodes', 'hasn', 'nidx', 'next_gid'}
+        rel = self._heap_kinds(self.goal) | base
+        hyps = list(getattr(self, 'axioms', [])) + list(self.hyps)
+        info = [(h, self._heap_kinds(h)) for h in hyps]
+        # hypotheses without quantifiers connect components (e.g. x == heap read): let them extend the relevant set once
+        for h, k in info:
+            if k and (k & (rel - base)) and not z3.is_quantifier(h):
+                rel |= k
+        return [h for h, k in info if not k or (k & (rel - base)) or k <= base]
+
+    def smt2(self, logic=None, filtered=False):
         s = z3.Solver()
+        if filtered:
+            for h in self.relevant_hyps():
+                s.add(h)
+            s.add(z3.Not(self.goal))
+            return s.to_smt2()
         for h in getattr(self, 'axioms', []):
             s.add(h)
         for h in self.hyps:
@@ -81,7 +122,7 @@ class State:
 
     def copy(self):
         s = State()
-        s.env = dict(self.env)
+        s.env = {k: (v.copy() if isinstance(v, AttrRec) else v) for k, v in self.env.items()}
         s.pc = list(self.pc)
         s.heap = self.heap
         s.exc = self.exc
@@ -178,6 +219,7 @@ class FunctionRun:
         self.is_method = '.' in contract.qualname
         self.trusted_used = set()
         self.bound_names = []
+        self.qenv = {}
         self.axioms = []
         self.axiom_keys = set()
         self.callees_used = set()
@@ -285,6 +327,15 @@ class FunctionRun:
                         from .heap import EDGE_SCHEMA
                         cs.add('eh:' + EDGE_SCHEMA[c[6:]][0])
                         cs.add('ev:' + EDGE_SCHEMA[c[6:]][0])
+                    elif c == 'attrs':
+                        from .heap import _ATTR_SORTS
+                        for a in _ATTR_SORTS:
+                            cs.update(['nh:' + a, 'nv:' + a])
+                        cs.add('rest')
+                    elif c == 'eattrs':
+                        from .heap import _EATTR_SORTS
+                        for a in _EATTR_SORTS:
+                            cs.update(['eh:' + a, 'ev:' + a])
                     elif c == 'nodes':
                         cs.update(['nodes', 'hasn', 'nidx', 'rest'])
                     elif c == 'edges':
@@ -677,6 +728,10 @@ class FunctionRun:
                 x.flow = None
                 for h in (spec.hints if spec else []):
                     self.spec_expr(h, x, self.entry)      # seeds ground instances of opaque spec functions
+                for j, lm in enumerate(spec.lemmas if spec else []):
+                    goal = self.spec_bool(lm, x, self.entry)
+                    self.oblige(x, 'lemma', goal, s, 'L%d.lemma%d' % (k, j), detail=lm)
+                    x.assume(goal)
                 x.env[ghost] = Val(TInt, i + 1)
                 for j, e in enumerate(inv):
                     self.oblige(x, 'inv-preserve', self.spec_bool(e, x, self.entry), s, 'L%d.%d' % (k, j), detail=e)
@@ -912,6 +967,10 @@ class FunctionRun:
         if opname == 'Mult' and a.ty is TStr and b.ty is TInt:
             raise Unsupported('string repetition')
         sym = {'Add': '+', 'Sub': '-', 'Mult': '*', 'Div': '/', 'FloorDiv': '//', 'Mod': '%'}.get(opname)
+        if sym and (isinstance(a.ty, TOpt) or isinstance(b.ty, TOpt)):
+            a, sa = ops.unwrap_opt(a)
+            b, sb = ops.unwrap_opt(b)
+            self.safety(st, z3.And(sa, sb), node, 'arith-on-None', spec)
         if sym and ops.is_num(a) and ops.is_num(b):
             v, safe = ops.arith(sym, a, b)
             self.safety(st, safe, node, 'arith-' + opname, spec)
